@@ -2,7 +2,6 @@ package c05
 
 import (
 	"fmt"
-	"math"
 	"path/filepath"
 	"runtime"
 	"testing"
@@ -14,6 +13,7 @@ import (
 	"verif/drive"
 	"verif/gen"
 	"verif/model"
+	"verif/oracle"
 	"verif/vt"
 )
 
@@ -22,25 +22,13 @@ func TestMain(m *testing.M) {
 	vt.Main(m, "C05")
 }
 
-type TextQuery struct {
-	Value    string        `json:"value"`
-	Operator string        `json:"operator"`
-	Limit    int           `json:"limit"`
-	Weight   *float32      `json:"weight,omitempty"`
-	Filter   *models.Query `json:"filter,omitempty"`
-}
-
-func (q TextQuery) toQuery() models.Query {
-	return models.Query{Property: gen.PText, Text: &models.SearchTextOptions{Value: q.Value, Operator: q.Operator, Limit: q.Limit, Weight: q.Weight, Filter: q.Filter}}
-}
-
 type Case struct {
-	H       gen.History   `json:"history"`
-	Queries [][]TextQuery `json:"queries"`
+	H       gen.History          `json:"history"`
+	Queries [][]oracle.TextQuery `json:"queries"`
 }
 
-func genTextQuery(t *rapid.T, label string, g *gen.HistoryGen) TextQuery {
-	q := TextQuery{Operator: rapid.SampledFrom([]string{models.OperatorContainsAll, models.OperatorContainsAny}).Draw(t, label+"-op")}
+func genTextQuery(t *rapid.T, label string, g *gen.HistoryGen) oracle.TextQuery {
+	q := oracle.TextQuery{Operator: rapid.SampledFrom([]string{models.OperatorContainsAll, models.OperatorContainsAny}).Draw(t, label+"-op")}
 	switch rapid.IntRange(0, 5).Draw(t, label+"-vk") {
 	case 0:
 		q.Value = rapid.SampledFrom(gen.StopWords).Draw(t, label+"-stop") // analyses to nothing
@@ -70,10 +58,32 @@ func genTextQuery(t *rapid.T, label string, g *gen.HistoryGen) TextQuery {
 	return q
 }
 
+func genQueries(t *rapid.T, i, sub, nq int, g *gen.HistoryGen, schema models.IndexSchema) []oracle.TextQuery {
+	var qs []oracle.TextQuery
+	k := rapid.IntRange(1, nq).Draw(t, fmt.Sprintf("nq%d.%d", i, sub))
+	for j := 0; j < k; j++ {
+		q := genTextQuery(t, fmt.Sprintf("q%d.%d.%d", i, sub, j), g)
+		// often ask for a term that is stored, so that scores are judged
+		if j == 0 {
+			for _, id := range g.M.Ids() {
+				if s, ok := model.FieldString(g.M.Docs[id], gen.PText); ok {
+					if toks := model.Analyse(s); len(toks) > 0 {
+						q.Value = toks[rapid.IntRange(0, len(toks)-1).Draw(t, fmt.Sprintf("qt%d.%d", i, sub))]
+						break
+					}
+				}
+			}
+		}
+		gen.MustValid(q.ToQuery(), schema)
+		qs = append(qs, q)
+	}
+	return qs
+}
+
 func genCase(t *rapid.T) Case {
 	so := gen.SchemaOpts{Filters: rapid.Bool().Draw(t, "withFilters"), Text: true}
 	ho := gen.HistoryOpts{MaxSteps: 10, MaxBatch: 10, PoolSize: rapid.SampledFrom([]int{8, 24}).Draw(t, "pool"),
-		AllowRejected: rapid.IntRange(0, 4).Draw(t, "allowRejected") == 0, Reopen: true, Evict: true, FieldProb: 85}
+		AllowRejected: rapid.IntRange(0, 4).Draw(t, "allowRejected") == 0, Reopen: true, Evict: true, FieldProb: rapid.SampledFrom([]int{50, 85, 100}).Draw(t, "fieldProb")}
 	nq := 5
 	if vt.Thorough() {
 		ho.MaxSteps, ho.MaxBatch, nq = 20, 40, 8
@@ -83,101 +93,40 @@ func genCase(t *rapid.T) Case {
 	c := Case{H: gen.History{Schema: schema, MaxPointSize: 1 << 20, CacheLimit: rapid.SampledFrom([]int64{-1, 0, 1000}).Draw(t, "cacheLimit")}}
 	g := gen.NewHistoryGen(t, schema, c.H.MaxPointSize, ho)
 	n := rapid.IntRange(1, ho.MaxSteps).Draw(t, "nsteps")
+	var pending []gen.Step
 	for i := 0; i < n; i++ {
-		c.H.Steps = append(c.H.Steps, g.Next())
-		var qs []TextQuery
-		k := rapid.IntRange(1, nq).Draw(t, fmt.Sprintf("nq%d", i))
-		for j := 0; j < k; j++ {
-			q := genTextQuery(t, fmt.Sprintf("q%d.%d", i, j), g)
-			gen.MustValid(q.toQuery(), schema)
-			qs = append(qs, q)
+		st := g.Next()
+		if st.Kind == "update" && st.Note == "" {
+			// rewrites that keep the set of distinct terms but change frequencies / length / order
+			for pi := range st.Points {
+				cur, ok := model.FieldString(g.M.Docs[st.Points[pi].Id], gen.PText)
+				if _, sets := st.Points[pi].Doc[gen.PText].(string); !ok || !sets || rapid.IntRange(0, 2).Draw(t, fmt.Sprintf("same%d.%d", i, pi)) != 0 {
+					continue
+				}
+				// the private model already holds the text this step writes: a follow-up update rewrites it
+				// with the same distinct terms but other frequencies and length
+				toks := model.Analyse(cur)
+				if len(toks) == 0 {
+					continue
+				}
+				variant := cur + " " + toks[rapid.IntRange(0, len(toks)-1).Draw(t, fmt.Sprintf("samew%d.%d", i, pi))]
+				if rapid.Bool().Draw(t, fmt.Sprintf("samedup%d.%d", i, pi)) {
+					variant += " " + toks[0] + " " + toks[0]
+				}
+				follow := gen.Step{Kind: "update", Points: []model.Point{{Id: st.Points[pi].Id, Doc: model.Doc{gen.PText: variant}}}, Note: "same-terms rewrite"}
+				pending = append(pending, follow)
+			}
 		}
-		c.Queries = append(c.Queries, qs)
+		c.H.Steps = append(c.H.Steps, st)
+		c.Queries = append(c.Queries, genQueries(t, i, 0, nq, g, schema))
+		for fi, f := range pending {
+			g.M.Update(f.Points)
+			c.H.Steps = append(c.H.Steps, f)
+			c.Queries = append(c.Queries, genQueries(t, i, fi+1, nq, g, schema))
+		}
+		pending = nil
 	}
 	return c
-}
-
-// checkText verifies one text answer against the model's current corpus.
-func checkText(m *model.Collection, q TextQuery, rows []drive.Row) (matching int, err error) {
-	tc := m.TextCorpus(gen.PText)
-	terms := model.QueryTerms(q.Value)
-	var fb model.Bounds
-	if q.Filter != nil {
-		fb, err = m.EvalFilter(*q.Filter)
-		if err != nil {
-			return 0, err
-		}
-	}
-	if len(terms) == 0 {
-		// a query that analyses to no term: the statement does not say whether "contains all of
-		// nothing" matches everything; only an empty answer or a valid one is accepted
-		if len(rows) == 0 {
-			return 0, nil
-		}
-	}
-	all := q.Operator == models.OperatorContainsAll
-	must, may := model.IdSet{}, model.IdSet{}
-	for id := range tc.Docs {
-		if !tc.Matches(id, terms, all) {
-			continue
-		}
-		if q.Filter == nil || fb.Must.Has(id) {
-			must.Add(id)
-			may.Add(id)
-		} else if fb.May.Has(id) {
-			may.Add(id)
-		}
-	}
-	if len(rows) < min(q.Limit, len(must)) || len(rows) > min(q.Limit, len(may)) {
-		return len(must), fmt.Errorf("%d rows; %d documents match (terms %q, operator %s) and pass the filter, limit %d; %s", len(rows), len(must), terms, q.Operator, q.Limit, tc)
-	}
-	weight := float32(1)
-	if q.Weight != nil {
-		weight = *q.Weight
-	}
-	seen := model.IdSet{}
-	lowest := math.Inf(1)
-	var prev float32
-	for i, r := range rows {
-		if !may.Has(r.Id) {
-			return len(must), fmt.Errorf("row %d: %s does not match terms %q under %s (or is outside the filter)", i, r.Id, terms, q.Operator)
-		}
-		if seen.Has(r.Id) {
-			return len(must), fmt.Errorf("row %d: %s returned twice", i, r.Id)
-		}
-		seen.Add(r.Id)
-		if r.Score == nil {
-			return len(must), fmt.Errorf("row %d: no _score", i)
-		}
-		got := *r.Score
-		if i > 0 && got > prev {
-			return len(must), fmt.Errorf("row %d: score %v after %v, not in non-increasing order", i, got, prev)
-		}
-		prev = got
-		want, tol := tc.Score(r.Id, terms)
-		if got != got || math.Abs(float64(got)-want) > tol {
-			return len(must), fmt.Errorf("row %d: %s has score %v, tf-idf over the current corpus gives %v (terms %q, doc %+v, N=%d)", i, r.Id, got, want, terms, tc.Docs[r.Id], len(tc.Docs))
-		}
-		if r.Hybrid != got*weight {
-			return len(must), fmt.Errorf("row %d: hybrid score %v, want weight*score = %v", i, r.Hybrid, got*weight)
-		}
-		if r.Distance != nil {
-			return len(must), fmt.Errorf("row %d: text result carries a _distance", i)
-		}
-		if want < lowest {
-			lowest = want
-		}
-	}
-	for id := range must {
-		if seen.Has(id) {
-			continue
-		}
-		s, tol := tc.Score(id, terms)
-		if s > lowest+2*tol+1e-6 {
-			return len(must), fmt.Errorf("matching document %s with score %v was cut although a document with score %v was returned (limit %d)", id, s, lowest, q.Limit)
-		}
-	}
-	return len(must), nil
 }
 
 func execCase(c Case) (res vt.Result) {
@@ -268,14 +217,14 @@ func execCase(c Case) (res vt.Result) {
 				if inst.s == nil {
 					continue
 				}
-				rows, err := inst.s.Search(models.SearchRequest{Query: q.toQuery()})
+				rows, err := inst.s.Search(models.SearchRequest{Query: q.ToQuery()})
 				if err != nil {
 					if cold != nil {
 						cold.Close()
 					}
 					return fail(i, "query %d %+v on %s failed: %v", qi, q, inst.name, err)
 				}
-				matching, err := checkText(m, q, rows)
+				matching, err := oracle.CheckText(m, q, rows)
 				if err != nil {
 					if cold != nil {
 						cold.Close()
@@ -338,13 +287,13 @@ func TestPropD10Probe(t *testing.T) {
 		rec.Eval()
 		observed := false
 		for _, term := range []string{"ring", "gandalf"} {
-			q := TextQuery{Value: term, Operator: models.OperatorContainsAll, Limit: 10}
-			rows, err := s.Search(models.SearchRequest{Query: q.toQuery()})
+			q := oracle.TextQuery{Value: term, Operator: models.OperatorContainsAll, Limit: 10}
+			rows, err := s.Search(models.SearchRequest{Query: q.ToQuery()})
 			if err != nil {
 				observed = true
 				break
 			}
-			if _, err := checkText(m, q, rows); err != nil {
+			if _, err := oracle.CheckText(m, q, rows); err != nil {
 				observed = true
 			}
 		}
